@@ -8,6 +8,7 @@ import copy
 from vf.ref import numbers
 from vf.ref.interp import Obj
 
+STRING_STYLES = ("", ":ff-tail", ":ff-only", ":mixed")
 OPERATORS = ("required-none", "fixed-string-short", "fixed-string-long", "padded-string-long", "lengthref-string-long",
              "lengthref-array-long", "fixed-array-short", "fixed-array-long", "int-at-limit", "int-far-above", "enum-at-limit",
              "array-element-at-limit", "casedata-none", "casedata-wrong-class", "casedata-for-empty-case")
@@ -63,15 +64,15 @@ def sites(interp, obj, path=(), heavy=False):
             if t.kind in ("str", "estr"):
                 if isinstance(ins.length, int):
                     if ins.padded:
-                        out.append((path, "padded-string-long", ins))
+                        out += [(path, "padded-string-long" + st, ins) for st in STRING_STYLES]
                     else:
-                        out.append((path, "fixed-string-long", ins))
+                        out += [(path, "fixed-string-long" + st, ins) for st in STRING_STYLES]
                         if ins.length > 0:
-                            out.append((path, "fixed-string-short", ins))
+                            out += [(path, "fixed-string-short" + st, ins) for st in STRING_STYLES[:3:2]]
                 elif lref is not None:
                     w = interp.resolve(lref.type).wire
                     if w in ("byte", "char", "short") or (heavy and w == "three"):
-                        out.append((path, "lengthref-string-long", ins))
+                        out += [(path, "lengthref-string-long" + st, ins) for st in STRING_STYLES[:3:2]]
             elif t.kind == "int":
                 out.append((path, "int-at-limit", ins))
                 out.append((path, "int-far-above", ins))
@@ -120,8 +121,24 @@ def _filler(interp, ins, t, n, like):
     return None
 
 
+def _text(n, style, limit):
+    """n characters: plain filler, a fitting text followed by y-diaeresis (0xFF on the wire - what padding looks
+    like), y-diaeresis only, or a mix of the characters the writer treats specially."""
+    if style == ":ff-tail":
+        keep = max(0, min(limit, n) - 1)
+        return "x" * keep + "\xff" * (n - keep)
+    if style == ":ff-only":
+        return "\xff" * n
+    if style == ":mixed":
+        return ("\xff y\x00~\xe9" * (n // 6 + 1))[:n]
+    return "x" * n
+
+
 def apply(interp, obj, site, vg=None):
     path, op, ins = site
+    style = ""
+    if ":" in op:
+        op, style = op.split(":")[0], op[op.index(":"):]
     root = copy.deepcopy(obj)
     o = _locate(root, path)
     _instrs_, lens = _instrs(interp, o.cls)
@@ -129,17 +146,19 @@ def apply(interp, obj, site, vg=None):
     if op == "required-none":
         o.fields[ins.name] = None
     elif op == "fixed-string-short":
-        o.fields[ins.name] = "x" * (ins.length - 1)
+        o.fields[ins.name] = _text(ins.length - 1, style, ins.length)
     elif op == "fixed-string-long":
-        o.fields[ins.name] = "x" * (ins.length + 1)
+        o.fields[ins.name] = _text(ins.length + 1 + (len(path) % 2), style, ins.length)
     elif op == "padded-string-long":
-        o.fields[ins.name] = "x" * (ins.length + 1 + (len(path) % 3))
+        o.fields[ins.name] = _text(ins.length + 1 + (len(path) % 3), style, ins.length)
     elif op in ("lengthref-string-long", "lengthref-array-long"):
         ld = lens[ins.length]
         n = interp.max_len_of(ld) + 1
         v = _filler(interp, ins, t, n, o.fields[ins.name] if ins.kind == "array" else None)
         if v is None:
             return None
+        if isinstance(v, str):
+            v = _text(n, style, n - 1)
         o.fields[ins.name] = v
     elif op in ("fixed-array-short", "fixed-array-long"):
         n = ins.length + (1 if op.endswith("long") else -1)
